@@ -19,7 +19,7 @@ ID = 'C05'
 LEVEL = 'model_checking'
 TECHNIQUE = ('bounded exhaustive enumeration of (program, fragment, parse mode, decoration) and of the single-token-edit '
              'neighbourhood of every fragment on the real parser front-end, judged by CPython ast.parse through an embedding table')
-LEVEL_TEXT = ('every node of 150+ programs is cut out by CPython positions and parsed by pfst in every mode that should accept it '
+LEVEL_TEXT = ('every node of 166 programs is cut out by CPython positions and parsed by pfst in every mode that should accept it '
               '(with leading/trailing comments, blank lines, continuation) and compared incl. all positions with the re-based '
               'sub-tree; every single-token deletion/duplication/replacement of every fragment is classified by CPython and '
               'pfst must reject exactly the invalid ones')
